@@ -20,8 +20,6 @@ from fractions import Fraction
 from vlib import *
 
 M52, M64 = 2**52, 2**64
-F_SUBNORMAL = "C16-real-subnormal"
-F_LEADZERO = "C16-real-leading-zero"
 
 
 def mk(s, e, f):
@@ -35,24 +33,6 @@ def fields(d):
 def is_nan(d):
     s, e, f = fields(d)
     return e == 2047 and f != 0
-
-
-# predicates of the known findings: as narrow as the root causes
-def pred_subnormal(d):
-    """biased exponent 0 and fraction != 0 (asn_double2REAL ORs in a hidden bit)"""
-    s, e, f = fields(d)
-    return e == 0 and f != 0
-
-
-def pred_leadzero(d):
-    """non-special double whose significand 2^52+f has 5, 6 or 7 (mod 8) trailing zero
-    bits: the make-odd shift empties the first kept byte 0x1X of the scratch pad"""
-    s, e, f = fields(d)
-    if e == 2047 or (e == 0 and f == 0):
-        return False
-    m = M52 + f
-    tz = (m & -m).bit_length() - 1
-    return tz % 8 >= 5
 
 
 def frac_pattern(rng, mstop, shift):
@@ -69,9 +49,32 @@ def frac_pattern(rng, mstop, shift):
     return ((hi << 8) | last) << (8 * (6 - mstop))
 
 
+def subnormal_patterns(rng):
+    """fractions of subnormals (no hidden bit: the scratch pad is the fraction itself): first non-zero pad byte at
+    index `lead`, last non-zero pad byte at index `mstop` (0 <= lead <= mstop <= 6), `shift` trailing zero bits in the
+    last kept byte (the make-odd shift may empty the first kept byte; the copy then skips it)"""
+    out = []
+    for lead in range(7):
+        for mstop in range(lead, 7):
+            for shift in range(8):
+                last = ((1 << shift) | (rng.below(256) & ~((2 << shift) - 1))) & 0xff
+                if mstop == lead:
+                    first, mid = None, 0
+                else:
+                    first = rng.range(1, 255) if rng.chance(1, 2) else (1 << rng.below(8))
+                    mid = rng.below(1 << (8 * (mstop - lead - 1))) if mstop - lead > 1 else 0
+                v = last if first is None else (((first << (8 * (mstop - lead - 1))) | mid) << 8) | last
+                f = (v << (8 * (6 - mstop))) & (M52 - 1)
+                if f:
+                    out.append(f)
+    return out
+
+
 def gen_doubles(rng, tier):
     quick = tier == "quick"
     out = []
+    for f in subnormal_patterns(rng):
+        out.append(mk(rng.below(2), 0, f))
     pats = [(m, sh) for m in range(7) for sh in range(8) if not (m == 0 and sh > 4)]
     pi = 0
     for e in range(2048):
@@ -269,7 +272,7 @@ def real_part(run, model, cdrv, tier, rng):
     c_lines = ["R2d " + h for _, _, h in q]
     s_lines = []
     for _, _, h in q:
-        s_lines += ["spec_der_real " + h, "spec_der_real_weak " + h, "spec_real_value " + h]
+        s_lines += ["spec_der_real " + h, "spec_real_value " + h]
     _, bo, _ = run_lines(cdrv, c_lines, env=SAN_ENV)
     _, so, _ = run_lines(model, s_lines)
     _, bm, _ = run_lines(model, c_lines)
@@ -278,11 +281,11 @@ def real_part(run, model, cdrv, tier, rng):
         return len(lines)
     for i, (d, line, h) in enumerate(q):
         s, e, f = fields(d)
-        back, strong, weak, val = bo[i], so[3 * i], so[3 * i + 1], so[3 * i + 2]
+        back, strong, val = bo[i], so[2 * i], so[2 * i + 1]
         cls = "nan" if is_nan(d) else "inf" if e == 2047 else "zero" if (e == 0 and f == 0) else "subnormal" if e == 0 else "normal"
         run.count("double_" + cls)
         if cls in ("normal", "subnormal"):
-            m = M52 + f
+            m = (M52 + f) if e else f
             tz = (m & -m).bit_length() - 1
             run.count("mstop_%d" % (6 - min(tz, 48) // 8))
             run.count("shift_%d" % (tz % 8 if tz < 48 else tz - 48))
@@ -290,7 +293,7 @@ def real_part(run, model, cdrv, tier, rng):
             run.violation("correspondence:RealConv(R2d)", {"what": "model and C disagree", "command_line": c_lines[i], "model": bm[i], "c": back, "_pending": True})
         rt_ok = back == ("NAN" if cls == "nan" else "OK %016x" % d)
         if cls in ("normal", "subnormal"):
-            form_ok, weak_ok = strong == "true", weak == "true"
+            form_ok = strong == "true"
             if val == "NONE":
                 val_ok = False
             else:
@@ -299,25 +302,15 @@ def real_part(run, model, cdrv, tier, rng):
                 val_ok = vs == xs and same_value(vn, ve, xm, xe)
         else:
             want = {"nan": "42", "inf": "41" if s else "40", "zero": "43" if s else "-"}[cls]
-            form_ok = weak_ok = (h == want) and strong == "true"
+            form_ok = (h == want) and strong == "true"
             val_ok = True
         if rt_ok and form_ok and val_ok:
             continue
-        rep = {"command_line": line, "c_octets": h, "read_back": back, "der_real_form": strong, "der_real_form_weak": weak,
-               "real_value": val, "class": cls}
-        if not weak_ok:
-            run.violation("oracle:d2R", dict(rep, what="stored octets are not the DER form (base 2, scale 0, odd mantissa, minimal exponent octets)"))
-            continue
+        rep = {"command_line": line, "c_octets": h, "read_back": back, "der_real_form": strong, "real_value": val, "class": cls}
         if not form_ok:
-            if pred_leadzero(d):
-                run.known_finding(F_LEADZERO, line)
-            else:
-                run.violation("oracle:d2R", dict(rep, what="stored octets are not the DER form (leading zero mantissa octet outside the known finding)"))
+            run.violation("oracle:d2R", dict(rep, what="stored octets are not the DER form (base 2, scale 0, minimal exponent octets, odd mantissa in the fewest octets)"))
         if not (rt_ok and val_ok):
-            if pred_subnormal(d):
-                run.known_finding(F_SUBNORMAL, line)
-            else:
-                run.violation("oracle:d2R", dict(rep, what="double does not come back bit for bit, or the stored (sign, N, E) does not denote it exactly"))
+            run.violation("oracle:d2R", dict(rep, what="double does not come back bit for bit, or the stored (sign, N, E) does not denote it exactly"))
     # ---- property oracle on R2d of the generated octets: correctly rounded value
     for b, line, c in zip(octs, lines[nd:], co[nd:]):
         fo = b[0] if b else -1
@@ -333,9 +326,9 @@ def real_part(run, model, cdrv, tier, rng):
     return len(lines)
 
 
-THEOREMS_NOTE = ("REAL half: C16_real_roundtrip_normal/specials/nan/partial (+_refuted on subnormals), "
-                 "C16_real_der_form_partial (all 2^64 patterns, without the leading-zero clause) + _refuted + _iff, "
-                 "C16_real_value_exact (+ _subnormal_actual, _refuted)")
+THEOREMS_NOTE = ("REAL half: C16_real_roundtrip (all 2^64 patterns) with _normal/_subnormal/_specials/_nan, "
+                 "C16_real_der_form (all 2^64 patterns, fewest mantissa octets included), "
+                 "C16_real_value_exact, C16_real_value_exact_subnormal")
 TRUSTED = ["REAL half: libc ilogb/ldexp/isnan/isfinite/copysign are modelled on the bit pattern (glibc x86-64 answers), tied by the differential run only",
            "REAL half: Python oracle (fractions.Fraction -> float conversion is correctly rounded; big-integer comparison of N*2^E)"]
 ASSUMPTIONS = ["REAL: the ISO 6093 decimal text form (first octet 01..03, libc strtod) is not modelled and not run",
